@@ -10,7 +10,7 @@ use crate::with_d;
 use num::{One, Signed, Zero};
 use std::time::Instant;
 
-pub const RULE: &str = "cases = graphs accepted by build_sampler, half arbitrary multigraphs (G-graph incl. non-spanning full graphs, several components) and half connected physical graphs (G-phys, L<=5); for each: J(empty)=1, the local recursion on the table's own values for every subset (exact rationals), J recomputed from the table's omegas alone by exact recursion and (E<=6, thorough 7) by the sum over all E! orderings, edge probabilities summing to 1 for every subset, cached_factor against own Gamma. non-trivial = E>=3 and (unequal weights or a massive edge or a non-spanning full graph); distinct = distinct graph encodings";
+pub const RULE: &str = "(besides the single graphs described next: families of sibling graphs as in C03 - a base graph, copies differing in exactly one attribute, the base again - built one after the other on one thread, each member checked by the same oracle) cases = graphs accepted by build_sampler, half arbitrary multigraphs (G-graph incl. non-spanning full graphs, several components) and half connected physical graphs (G-phys, L<=5); for each: J(empty)=1, the local recursion on the table's own values for every subset (exact rationals), J recomputed from the table's omegas alone by exact recursion and (E<=6, thorough 7) by the sum over all E! orderings, edge probabilities summing to 1 for every subset, cached_factor against own Gamma. non-trivial = E>=3 and (unequal weights or a massive edge or a non-spanning full graph); distinct = distinct graph encodings";
 
 pub fn gen_case(t: &mut Tape, tier: Tier) -> Option<G> {
     if t.bool() {
@@ -68,6 +68,19 @@ fn check_d<const D: usize>(g: &G, ctx: &mut Ctx) -> Result<(), Failure> {
     }
     let eps = f64::EPSILON;
     let full = n - 1;
+    // the omegas the recursion runs on must be THIS graph's generalised degrees of divergence (exact reference; decided
+    // in detail by C03, repeated here so that J is tied to the graph and not merely to whatever table was stored)
+    {
+        let dyadic = g.weights.iter().all(|w| (w * 64.0).fract() == 0.0 && *w < 1024.0);
+        let scale = g.wsum_abs() + (nl * D) as f64 / 2.0 + 1.0;
+        let tol_om = if dyadic { 0.0 } else { 4.0 * (ne as f64 + 2.0) * eps * scale };
+        for m in 0..n {
+            let diff = qf(&(q(omega[m]) - g.omega_q(m)).abs());
+            if !(diff <= tol_om) {
+                fail!("omega-of-another-graph", "subset {m:#b}: the table's omega {} is not this graph's generalised degree of divergence {} (diff {diff:e}) for {g:?}", omega[m], qf(&g.omega_q(m)));
+            }
+        }
+    }
     // the full graph's omega never enters J; proper subsets of an accepted graph have omega > 0
     let jq: Vec<Q> = jt.iter().map(|&x| q(x)).collect();
     let oq: Vec<Q> = omega.iter().map(|&x| q(x)).collect();
@@ -156,6 +169,24 @@ pub fn check(g: &G, ctx: &mut Ctx) -> Result<(), Failure> {
     with_d!(g.d, check_d(g, ctx))
 }
 
+pub fn gen_family(t: &mut Tape, tier: Tier) -> Option<super::family::Family> {
+    super::family::gen_family(t, tier, 7)
+}
+pub fn check_family(f: &super::family::Family, ctx: &mut Ctx) -> Result<(), Failure> {
+    super::family::check_family(f, ctx, &check)
+}
+#[derive(Clone, Debug, serde::Serialize, serde::Deserialize)]
+#[serde(untagged)]
+pub enum Any {
+    Fam(super::family::Family),
+    One(G),
+}
+pub fn check_any(c: &Any, ctx: &mut Ctx) -> Result<(), Failure> {
+    match c {
+        Any::Fam(f) => check_family(f, ctx),
+        Any::One(g) => check(g, ctx),
+    }
+}
 pub fn run(tier: Tier, seed: u64) -> i32 {
     let t0 = Instant::now();
     if tier == Tier::Thorough {
@@ -163,9 +194,11 @@ pub fn run(tier: Tier, seed: u64) -> i32 {
     }
     let sp = Spec { id: "C04", rule: RULE, tape_len: 200, cases: tier.pick(20_000, 200_000), gen: gen_case, check, max_shrink_iters: 300, shards: 16 };
     let mut stats = engine::run_spec(&sp, tier, seed);
-    engine::run_regressions::<G>("C04", check, &mut stats);
+    let spf = Spec { id: "C04", rule: RULE, tape_len: 220, cases: tier.pick(6_000, 60_000), gen: gen_family, check: check_family, max_shrink_iters: 300, shards: 16 };
+    stats.merge(engine::run_spec(&spf, tier, seed ^ 0xfa4));
+    engine::run_regressions::<Any>("C04", check_any, &mut stats);
     engine::finish("C04", tier, seed, RULE, stats, t0, serde_json::json!({}), &["exact rational arithmetic on the table's f64 omegas", "own ln Gamma (Stirling), |rel err| < 1e-14"])
 }
 pub fn replay(path: &str) -> i32 {
-    engine::replay_file::<G>("C04", path, check)
+    engine::replay_file::<Any>("C04", path, check_any)
 }
